@@ -17,9 +17,14 @@
            Gen/GenNetworks.v, alphabets from Gen/GenConsts.v (all regenerated from /repo on every run).
 
    Scope of the key book: single-signature bip32 wallets (multisig cosigner wallets are C10); path tables and
-   [lib_path_expand] cover the multisig structures too.  Not modelled: import_master_key / import_key, custom
-   key_path / purpose arguments of Wallet.create, explicit full paths ("m/...") on wallets whose main key is an
-   account-level key (the book refuses them), positive level_offset. *)
+   [lib_path_expand] cover the multisig structures too.  The configuration carries what decides the REACH of the
+   wallet: depth and privacy of the main key (w_root_depth, w_root_private); the two guards that look at them
+   (keys_for_path: another witness type; new_account) are the tests of the source text (Gen/GenWalletCfg.v).
+   w_guard_reach / w_acct_from_path say which library the book mirrors (with / without fixes/C09-5, C09-6).
+   Not modelled: import_master_key / import_key, custom key_path / purpose arguments of Wallet.create, the
+   level_offset argument of key_for_path (public_master's own use of it is), cosigner_id, single-key wallets, a
+   relative path with as many items as the key path on an account-level wallet (the library drops the first item,
+   the book refuses), a path rooted at "M" on a wallet with a master key (the library refuses, the book derives). *)
 From Coq Require Import ZArith Bool String List.
 From Coq.Strings Require Import Byte Ascii.
 From Verif Require Import Lib.Bytes Crypto.Sha256 Crypto.Sha512 Crypto.Ripemd160 Crypto.Hmac Crypto.Secp256k1.
@@ -509,9 +514,11 @@ Definition lib_keys_for_path (w : wstate) (upath : list pelem) (full : bool) (le
       let net' := fst (acct_defaults w net acct) in
       let acct' := snd (acct_defaults w net acct) in
       let wt' := opt_default (w_wt c) wt in
-      (* "This wallet has no private key, cannot use multiple witness types": the guard as the code has it, a
-         public main key OR a main key below depth 0 *)
-      if (negb (w_root_private c) || negb (w_root_depth c =? 0)) && negb (wtype_eqb wt' (w_wt c)) then (w, None)
+      (* "This wallet has no private key, cannot use multiple witness types": the test as the source has it
+         (Gen/GenWalletCfg.v, regenerated from wallets.py): no main key, a public main key OR a main key below depth 0,
+         and another witness type, on a wallet that is not a multisig wallet *)
+      if kfp_witness_guard true (w_root_private c) (w_root_depth c =? 0) (negb (wtype_eqb wt' (w_wt c))) false
+      then (w, None)
       (* fixes/C09-5: "Cannot create new keys for network / account ..., no private masterkey found" - the main key
          is an account-level key and the request names another network, or (no account level in the key path)
          another account than the main key's *)
@@ -646,7 +653,7 @@ Definition lib_new_account (w : wstate) (acct : option Z) (wt : option wtype) (n
   : wstate * option (list keyrec) :=
   let c := ws_cfg w in
   (* "A master private key of depth 0 is needed to create new accounts" *)
-  if negb (w_root_depth c =? 0) || negb (w_root_private c) then (w, None)
+  if new_account_guard true (w_root_private c) (w_root_depth c =? 0) false false then (w, None)
   else if negb (is_some (index_of "account'" (w_tpl c))) then (w, None)
   else
     let net' := opt_default (w_net c) net in
